@@ -129,8 +129,13 @@ def rules(marshal, message, protocol, client):
         q = protocol.BasicDBusProtocol()
         q.transport = _Rec()
         q.sendMessage(n)
-        return (p.transport.calls == [('f', 7), ('f', 7), ('f', 5), ('W', m.rawMessage)]
-                and q.transport.calls == [('W', n.rawMessage)])
+
+        def shape(calls, fds, raw):
+            # every descriptor, in order, before the first byte; the bytes written (in one or several writes) are the message
+            k = len(fds)
+            return (calls[:k] == [('f', d) for d in fds] and len(calls) > k and all(c[0] == 'W' for c in calls[k:])
+                    and b''.join(c[1] for c in calls[k:]) == raw)
+        return shape(p.transport.calls, [7, 7, 5], m.rawMessage) and shape(q.transport.calls, [], n.rawMessage)
     put('sendEachThenWrite',
         _src_is(protocol.BasicDBusProtocol.sendMessage,
                 ['assert isinstance(msg, message.DBusMessage)',
